@@ -12,6 +12,7 @@ func TestStall(t *testing.T)     { stallProp.Test(t) }
 func TestAllK(t *testing.T)      { enumerateK(t) }
 func TestCallbacks(t *testing.T) { cbProp.Test(t) }
 
+func TestForced(t *testing.T)     { forcedProp.Test(t) }
 func TestLoss(t *testing.T)       { lossProp.Test(t) }
 func TestLossAllK(t *testing.T)   { enumerateLossK(t) }
 func TestVerifChild(t *testing.T) { ev.ChildMain(t, lossProp) }
